@@ -28,6 +28,7 @@ ASSUMPTIONS = ["an argument-less StopIteration travels as the published short fo
                "both peers share one interpreter: 'module not yet imported' is emulated with classes whose __module__ names a "
                "canary module file that is on sys.path but not in sys.modules"]
 SHARDS = {"quick": 1, "thorough": 16}
+SHARD_TIMEOUT = {"thorough": 7200}
 MIN_DISTINCT = {"quick": 500, "thorough": 20000}
 
 IGNORED_ATTRS = {"args", "with_traceback", "add_note"}
@@ -521,7 +522,8 @@ def run(ctx):
     ctx.extra["builtin_exception_classes_enumerated"] = len(classes)
     if ctx.shard[0] != 0:
         rng.shuffle(classes)
-    run_matrix(ctx, rng, classes, per_class=2 if ctx.quick else 24)
+    # thorough: every shard walks the whole class x switch matrix with its own argument samples (8 per class and switch setting)
+    run_matrix(ctx, rng, classes, per_class=2 if ctx.quick else 8)
     if not ctx.enough():
         canary_import_cases(ctx, rng, ctx.budget(16, 3200))
     if not ctx.enough():
